@@ -13,11 +13,11 @@ check("C01", "other", "Necessary structural conditions of the accepted grammar, 
       T_AST + "return-site census, go/cfg path rule (no element skipped, order comparison dominates Set), table comparison with the specification vocabulary", "DESIGN §5 C01")
 check("C02", "other", "Round trip reduced to proved layout facts (C07) plus serializer/parser table agreement; decided for every metric and value.",
       "The parser loop accepting the emitted string is shared with C01 and not decided.", T_AST + "serializer table extraction, emit-helper summaries, comparison with Set/Get models and the specification order", "DESIGN §5 C02")
-check("C03", "other", "The code evaluates the specification's expressions with the specification's constants on the right inputs: canonical formula trees, weight tables and byte routing all equal the oracle.",
-      "float64 vs real arithmetic is not decided (no clause about rounding of values within 1e-5 of a tenth).", T_AST + "symbolic evaluation of loop-free methods into canonical formula trees (exact rational literals), known-bits routing of every byte read, weight tables by exhaustive evaluation of the helper switches", "DESIGN §5 C03")
+check("C03", "other", "The code evaluates the specification's expressions with the specification's constants on the right inputs (canonical formula trees, weight tables, byte routing = oracle) AND every rounding step/comparison is farther from its discontinuity than any float64 evaluation error, for every metric combination — so the returned one-decimal values are exactly the specification's.",
+      "Trusted: IEEE-754 binary64 round-to-nearest error model stated in checker/floatsafe.go; EnvironmentalScore float64-stability (3.36 M combinations per version) is re-derived in the thorough tier only.", T_AST + "symbolic evaluation of loop-free methods into canonical formula trees (exact rational literals), known-bits routing of every byte read, weight tables by exhaustive evaluation of the helper switches", "DESIGN §5 C03")
 check("C04", "other", "Every table, predicate, guard and per-EQ term of the MacroVector algorithm equals the specification; EQ predicates and next-lower logic by complete finite tabulation.",
-      "The nested max-vector search and float arithmetic end-to-end are not decided. Lookup oracle is a second-hand copy of FIRST's table (claircore).", T_AST + "complete truth tables of loop-free fragments over metric codes (M7), table extraction, template matching of the interpolation def-use chain", "DESIGN §5 C04")
-check("C05", "other", "As C03 for the v2.0 equations.", "float64 vs real arithmetic and half-way cases not decided.", T_AST + "canonical formula trees, weight tables, known-bits routing", "DESIGN §5 C05")
+      "Exact x.x5 tie classes (2 887 of 52 650) are not decided. Lookup oracle is a second-hand copy of FIRST's table (claircore).", T_AST + "complete truth tables of loop-free fragments over metric codes (M7), table extraction, template matching of the interpolation def-use chain", "DESIGN §5 C04")
+check("C05", "other", "As C03 for the v2.0 equations.", "Combinations within the float64 error bound of an exact half-way case are counted, not decided (the property leaves half-way cases open).", T_AST + "canonical formula trees, weight tables, known-bits routing", "DESIGN §5 C05")
 check("C06", "other", "Set receives the two halves of the same element on the returned, all-zero-initialised object; code 0 is the not-defined token; Get inverts Set (C07).",
       "Which elements the loops visit is C01's undecided part.", T_AST + "def-use identity of Set's arguments, literal check, layout model", "DESIGN §5 C06")
 check("C07", "proof", "Complete static proof: bit-level non-interference of all 90 Set arms, validate-before-write, Get∘Set = id, unused bits stay 0, Set is the only writer. Sufficient for all three sentences of C07 by induction over call sequences.",
@@ -29,9 +29,9 @@ check("C09", "other", "Vocabulary equality with the specification, refusing defa
 check("C10", "proof", "Complete: the environmental scores are functions of effective values only (symbolic trees for v3, complete truth tables for every v4 local and EQ predicate), defaults for undefined metrics equal the specification's, supplemental metrics are never read.",
       "Trusted: the M3/M7/M8 evaluators of the checker; for v4 the loop nest is covered through the classification of every value passed to severityDistance.", T_AST + "non-interference by symbolic formula trees (v3) and complete finite truth tables over (base, Modified) code pairs (v4)", "DESIGN §5 C10")
 check("C11", "other", "Every score return is rounded or 0, rounding bodies end in /10 of an integer-valued float, v3 caps, lookup literals one-decimal in [0,10], no reachable panic.",
-      "Numeric range of v2/v4 arithmetic and float exactness not decided.", T_AST + "return-leaf analysis of the canonical trees, table checks", "DESIGN §5 C11")
-check("C12", "other", "Necessary table monotonicity: v4 lookup along all 945 next-lower edges, all v2/v3 weight tables, v4 severity orders.",
-      "Monotonicity of interpolation and rounding not decided.", T_AST + "order checks over extracted tables against the specification severity orders", "DESIGN §5 C12")
+      "Numeric range of the v2 arithmetic not decided.", T_AST + "return-leaf analysis of the canonical trees, table checks", "DESIGN §5 C11")
+check("C12", "other", "v2/v3: exhaustive exact-rational monotonicity of the canonical formula trees over all value combinations; v4: lookup along all 945 next-lower edges, severity orders; all weight tables.",
+      "Monotonicity of the v4 interpolation between MacroVectors and of float64 rounding not decided; v2/v3 equations decided in exact real arithmetic.", T_AST + "order checks over extracted tables against the specification severity orders", "DESIGN §5 C12")
 check("C13", "other", "Headers pairwise prefix-incomparable and equal to the specification; header guard is the first statement; v2 starts at 'AV'.",
       "v2 clause relies on C01's loop.", T_AST + "constant comparison and guard-shape/dominance check", "DESIGN §5 C13")
 check("C14", "other", "Effect analysis: no writes to package-level state, only Set writes through *T, pool typestate, private buffer, concurrency census.",
